@@ -72,28 +72,26 @@ def any_label_in_symmetric_environment(mol):
 
 
 def symmetric_cage(mol):
-    """recorded gap (ii): a ring block with >= 3 rings whose ring atoms fall into symmetry classes of size >= 3"""
+    """recorded gap (ii): a ring block with >= 3 rings whose ring atoms are symmetry equivalent, read as: no ring atom
+    of the block is alone in its constitution class (prismane, cubane, ladderanes such as tricyclo[3.1.0.0]hexane)"""
     sssr = mol.sssr
     if len(sssr) < 3:
         return False
     col = refine(mol)
-    # ring blocks = connected components of rings sharing atoms
-    rings = [set(r) for r in sssr]
     blocks = []
-    for r in rings:
+    for r in (set(r) for r in sssr):
         merged = [b for b in blocks if b[0] & r]
         for b in merged:
             blocks.remove(b)
-        atoms = set(r)
-        cnt = 1
+        atoms, cnt = set(r), 1
         for b in merged:
             atoms |= b[0]
             cnt += b[1]
         blocks.append((atoms, cnt))
+    from collections import Counter
     for atoms, cnt in blocks:
         if cnt >= 3:
-            from collections import Counter
             c = Counter(col[n] for n in atoms)
-            if all(v >= 3 for v in c.values()):
+            if all(v >= 2 for v in c.values()):
                 return True
     return False
